@@ -284,6 +284,8 @@ def main():
                 continue
             obs = E.obligations
             st = solve.discharge(E, obs, tier=tier, jobs=args.jobs, log=log, timeout=h.get("timeout_" + tier), inproc_ms=h.get("inproc_ms"))
+            if not any(o.kind == "reach" for o in obs):
+                inconclusive.append("%s: vacuous - the harness never reached its Reach witness" % h["name"])
             n_triv = sum(1 for o in obs if o.status == "trivial")
             n_unsat = sum(1 for o in obs if o.status == "unsat" and o.expect == "unsat")
             n_reach_ok = 0
